@@ -656,6 +656,40 @@ def run_w3(facts, rep):
                     writes += 1
                     rep.ob("C06.W3", "annotations-read-only:%s#%d" % (h["fn"], writes), False,
                            "a copy of a schema's annotations is rebuilt with `default: %s` outside the one allowed case (removing a `null` default for the inner type of an Option): the default the schema states is not the one that is validated" % val, n.get("sp"))
+    # a copy of a schema whose annotations are replaced wholesale (`SchemaObject { metadata: .., ..schema.clone() }`) and which
+    # is then handed to a converter: the converters (and the numeric range check) no longer see the schema's default
+    from lib import uses_of_let
+    converters = {q for q, f_ in c.fns.items() if not f_.get("derived") and re.search(r"TypeSpace::(convert_\w+|id_for_schema\w*)$", q)}
+    for h in c.user_fns():
+        anc_of = None
+        for n, anc in walk(h["body"]):
+            if not (n.get("k") == "struct" and n["path"].endswith("schema::SchemaObject") and "rest" not in n and n.get("base") is not None):
+                continue
+            md = dict((f_[0], f_[1]) for f_ in n["fields"]).get("metadata")
+            if md is None:
+                continue
+            from lib import Canon as _Canon
+            mtxt = _Canon(c, h, 2).r(md)
+            if re.search(r"Some\(_\) if \(\S*\.default Eq Some\(Value::Null\)\) => Some\(Box<T>::new\(Metadata\{default: None\}\)\) \| _ => ", mtxt):
+                continue  # the guarded null-removal (D8)
+            if re.fullmatch(r"\$?&?\S*[~.]metadata(\.clone\(\))?", mtxt):
+                continue  # the schema's own annotations, carried over unchanged
+            # where does the literal go?
+            flows = False
+            for a in reversed(anc):
+                if a.get("k") in ("call", "mcall") and a.get("fn") in converters:
+                    flows = True
+                if a.get("k") == "let":
+                    for u_ in uses_of_let(h, a):
+                        if anc_of is None:
+                            anc_of = {id(x): xa for x, xa in walk(h["body"])}
+                        if any(p_.get("k") in ("call", "mcall") and p_.get("fn") in converters for p_ in anc_of.get(id(u_), ())):
+                            flows = True
+                    break
+            if flows:
+                writes += 1
+                rep.ob("C06.W3", "annotations-read-only:%s#%d" % (h["fn"], writes), False,
+                       "a copy of the schema with `metadata: %s` is handed to a converter: the inner conversion (which is where a numeric default is checked against the type's range) no longer sees the schema's `default`" % mtxt[:40], n.get("sp"))
     rep.ob("C06.W3", "annotations-read-only", writes == 0, "no write to a Metadata field (%d reads)" % reads if writes == 0 else "%d writes to Metadata fields" % writes, nontrivial=False)
     rep.floor("C06.W3", "reads of Metadata fields (the matcher sees them)", reads, 8)
 
